@@ -230,6 +230,8 @@ type run struct {
 	capLo    int32
 	capHi    int32
 	spin     *rng // free running: random work inside bodies
+	burst    int32 // free running, burst family: slot holders finish the rest of Evaluate in groups of this size
+	bursting int32
 	barrier  int32 // free running, fan-in family: dependents of the root meet before they request their dependencies
 	arrived  int32
 	spinMu   sync.Mutex
@@ -430,6 +432,14 @@ func (t *tgt) Evaluate(e runner.Engine) error {
 		r.s.mu.Unlock()
 	}
 	r.work()
+	if b := atomic.LoadInt32(&r.burst); b > 1 && l != r.g.root {
+		n := atomic.AddInt32(&r.bursting, 1)
+		for spin := 0; atomic.LoadInt32(&r.bursting) < (n+b-1)/b*b && spin < 3000; spin++ {
+			if spin%32 == 31 {
+				runtime.Gosched()
+			}
+		}
+	}
 	var err error
 	switch {
 	case failed:
@@ -645,6 +655,42 @@ func pickPCT(rg *rng, d, est int) func(*sched, []*thread) *thread {
 	}
 }
 
+// gate contention: fill the gate, queue as many targets as possible in gate.enter, release slots back to back and
+// let a signalled waiter re-test the capacity as late as possible (the window in which a second release, or a
+// barging entrant, meets a gate whose only signalled waiter has not run yet)
+func pickGate(rg *rng) func(*sched, []*thread) *thread {
+	return func(s *sched, ready []*thread) *thread {
+		var block, exits, rest, rewake []*thread
+		for _, t := range ready {
+			switch {
+			case t.at == "rewake":
+				rewake = append(rewake, t)
+			case t.at == "enter" && s.capacity == 0:
+				block = append(block, t)
+			case t.at == "exit":
+				exits = append(exits, t)
+			default:
+				rest = append(rest, t)
+			}
+		}
+		pick := func(xs []*thread) *thread { return xs[rg.below(len(xs))] }
+		k := rg.below(10)
+		switch {
+		case len(block) > 0 && k < 8:
+			return pick(block)
+		case len(exits) > 0 && len(s.gateQ)+len(rewake) > 0 && k < 8:
+			return pick(exits)
+		case len(rest) > 0 && k < 9:
+			return pick(rest)
+		case len(exits) > 0 && len(rest) == 0 && len(rewake) > 0 && k < 7:
+			return pick(exits)
+		case len(rewake) > 0 && len(rest)+len(exits)+len(block) == 0:
+			return pick(rewake)
+		}
+		return pick(ready)
+	}
+}
+
 // follow a schedule (thread names); afterwards prefer enabled threads, lowest name first
 func pickGuided(guide []string, rg *rng) func(*sched, []*thread) *thread {
 	i := 0
@@ -806,6 +852,16 @@ func reportExecution(w *bufio.Writer, r *run, j job, o outcome) (fatal bool) {
 	case "deadlock":
 		props := "C05"
 		r.violate(props, "deadlock", "all goroutines blocked and the build has not finished: "+o.verdict.detail)
+		r.s.mu.Lock()
+		for _, n := range r.s.order {
+			if t := r.s.threads[n]; t.state == stBlocked && t.at == "wait" && r.s.status[t.arg] == 2 {
+				r.violate("C04", "dependent-never-continues", "target "+t.name+" still waits for "+t.arg+", which has finished: "+o.verdict.detail)
+			}
+			if t := r.s.threads[n]; t.state == stBlocked && t.at == "enter" && r.s.capacity > 0 {
+				r.violate("C09", "sleeps-with-free-slot", fmt.Sprintf("target %s sleeps in gate.enter while %d slot(s) are free: %s", t.name, r.s.capacity, o.verdict.detail))
+			}
+		}
+		r.s.mu.Unlock()
 		if r.s.capacity == 0 {
 			r.violate("C09", "deadlock-no-slot", "all goroutines blocked with no free slot (limit "+strconv.Itoa(r.limit)+"): "+o.verdict.detail)
 		}
@@ -879,6 +935,10 @@ func childCtl() int {
 				pick = pickRandom(rg)
 			case "pct":
 				pick = pickPCT(rg, 1+rg.below(3), 30+20*g.n)
+			case "pct6":
+				pick = pickPCT(rg, 3+rg.below(4), 30+20*g.n)
+			case "gate":
+				pick = pickGate(rg)
 			case "guide":
 				var guide []string
 				if j.Guide != "" {
@@ -922,6 +982,14 @@ func childStress(seed uint64, n int, maxNodes int, fixed string) int {
 		}
 		r := newRun(g, nil, limit)
 		r.spin = &rng{rg.next()}
+		if fixed == "" && i%3 == 1 && limit >= 2 {
+			// burst family: a full gate with targets queued behind it whose holders finish together, so that slot
+			// releases coincide (a release must wake a waiter even when another release has just done so)
+			g = genContention(rg, limit)
+			g.cap = 0
+			r = newRun(g, nil, limit)
+			r.burst = int32(limit)
+		}
 		if fixed == "" && i%3 == 2 {
 			// contention family: many dependents request the same few targets at the same moment, no work in
 			// the bodies (the races on the registry and on a target's status need real simultaneity)
@@ -1051,6 +1119,26 @@ func genGraph(rg *rng, n, capacity int) *graph {
 		}
 	}
 	g.known[0] = rg.below(40) != 0
+	return g
+}
+
+// contention: a root with 2*limit+2 .. 3*limit+3 leaves (some of them short chains), so that the gate is full with
+// several targets queued behind it
+func genContention(rg *rng, limit int) *graph {
+	k := 2*limit + 2 + rg.below(limit+2)
+	n := 1 + k
+	chains := rg.below(3)
+	n += chains
+	g := &graph{n: n, cap: limit, root: 0, deps: make([][]int, n), known: make([]bool, n), body: make([]bool, n)}
+	for i := range g.known {
+		g.known[i], g.body[i] = true, true
+	}
+	for m := 1; m <= k; m++ {
+		g.deps[0] = append(g.deps[0], m)
+	}
+	for c := 0; c < chains; c++ {
+		g.deps[1+rg.below(k)] = []int{1 + k + c}
+	}
 	return g
 }
 
@@ -1399,6 +1487,21 @@ func main() {
 		}
 		sizes[g.n] += 2
 	}
+	// 3b. gate contention: fan-outs and chains that release slots in pairs, limits 2 and 3, directed picker + deep PCT
+	gn := 120
+	if !quick {
+		gn = 3000
+	}
+	for i := 0; i < gn; i++ {
+		c := 2 + rg.below(2)
+		g := genContention(rg, c)
+		st := "gate"
+		if i%4 == 3 {
+			st = "pct6"
+		}
+		jobs = append(jobs, job{Stream: "runner." + st, Params: g.params(), Strat: st, Seed: rg.next()})
+		sizes[g.n]++
+	}
 	if *dumpJobs {
 		for _, j := range jobs {
 			b, _ := json.Marshal(j)
@@ -1445,7 +1548,7 @@ func main() {
 	if !quick {
 		sn, smax, sl = 40000, 40, 100*time.Second
 	}
-	for _, cpus := range []string{"0", "0-1", "0-15"} {
+	for _, cpus := range []string{"0", "0-1", "0-2", "0-15"} {
 		p.runStress(rg.next(), cpus, sn, smax, sl, "")
 	}
 
